@@ -329,12 +329,8 @@ func (g *TemplateGenerator) typeParams(ctx context.Context, tparams *types.TypeP
 		}
 		// The method signatures refer to the type parameter by its declared
 		// name, so it must not be renamed, even if it shadows an import.
-		// A blank type parameter can't be referred to at all: the mock has
-		// to name it in order to instantiate itself, so it keeps the name
-		// the scope allocated.
-		if tp.Obj().Name() != "_" {
-			v.Name = tp.Obj().Name()
-		}
+		// (A blank one is given a name by nameBlankTypeParams.)
+		v.Name = tp.Obj().Name()
 		tpd[i] = template.TypeParam{
 			Param:      template.Param{Var: v},
 			Constraint: explicitConstraintType(typeParam),
@@ -342,6 +338,33 @@ func (g *TemplateGenerator) typeParams(ctx context.Context, tparams *types.TypeP
 	}
 
 	return tpd, nil
+}
+
+// nameBlankTypeParams gives every blank type parameter a name: the mock has
+// to name all its type parameters in order to instantiate itself. Nothing
+// refers to such a parameter, so any name will do that is not visible in one
+// of the methods, where it would hide a type or collide with a parameter.
+func nameBlankTypeParams(tParams []template.TypeParam, methods []template.Method) {
+	taken := func(name string) bool {
+		for _, tParam := range tParams {
+			if tParam.Name() == name {
+				return true
+			}
+		}
+		for _, method := range methods {
+			if method.Scope.NameExists(name) {
+				return true
+			}
+		}
+		return false
+	}
+	for _, tParam := range tParams {
+		for i := 0; tParam.Name() == "_"; i++ {
+			if name := fmt.Sprintf("T%d", i); !taken(name) {
+				tParam.Var.Name = name
+			}
+		}
+	}
 }
 
 // getTemplate returns the requested template and associated schema (if available).
@@ -471,6 +494,8 @@ func (g *TemplateGenerator) Generate(
 					Logger().
 					WithContext(ctx))
 		}
+
+		nameBlankTypeParams(tParams, methods)
 
 		ifaceLog.Debug().Str("template-data", fmt.Sprintf("%v", ifaceMock.Config.TemplateData)).Msg("printing template data")
 		mockData = append(mockData, template.Interface{
